@@ -109,16 +109,18 @@ func c14Model(r *rand.Rand) *openfgav1.AuthorizationModel {
 	if r.Intn(2) == 0 {
 		// attribution with hostile names
 		for _, td := range m.GetTypeDefinitions() {
-			if r.Intn(5) == 0 {
-				continue // unattributed type inside a modular model
-			}
 			if td.Metadata == nil {
 				td.Metadata = &openfgav1.Metadata{}
 			}
-			td.Metadata.Module = hostileModules[r.Intn(len(hostileModules))]
-			td.Metadata.SourceInfo = &openfgav1.SourceInfo{File: hostileFiles[r.Intn(len(hostileFiles))]}
-			if r.Intn(6) == 0 {
-				td.Metadata.SourceInfo = nil // what TransformModularDSLToProto returns: a module but no source info
+			if r.Intn(5) == 0 {
+				// unattributed type inside a modular model; its relations may still come from other modules' extensions
+				td.Metadata.Module, td.Metadata.SourceInfo = "", nil
+			} else {
+				td.Metadata.Module = hostileModules[r.Intn(len(hostileModules))]
+				td.Metadata.SourceInfo = &openfgav1.SourceInfo{File: hostileFiles[r.Intn(len(hostileFiles))]}
+				if r.Intn(6) == 0 {
+					td.Metadata.SourceInfo = nil // what TransformModularDSLToProto returns: a module but no source info
+				}
 			}
 			for _, md := range td.Metadata.Relations {
 				md.Module, md.SourceInfo = "", nil
